@@ -54,7 +54,8 @@ class Job:
         self.spec = spec
         self.idx = idx
         self.kind = spec["kind"]  # rc | enum | fuzz | replay | script
-        self.tag = f"j{idx}-{self.kind}-{spec.get('mode', '')}"
+        self.tag = f"j{idx}-{self.kind}-{spec.get('mode', '')}" + \
+            (("-s" + spec["shard"].replace("/", "of")) if spec.get("shard") else "")
         self.workdir = workdir
         self.stats = os.path.join(workdir, f"{self.tag}.stats.json")
         self.art = os.path.join(workdir, f"{self.tag}-")
@@ -85,6 +86,8 @@ class Job:
                    "--art", self.art]
             if s.get("limit"):
                 cmd += ["--limit", str(s["limit"])]
+            if s.get("shard"):
+                cmd += ["--shard", s["shard"]]
         elif self.kind == "replay":
             cmd = [binary, "--replay", s["path"], "--stats", self.stats, "--art", self.art]
             if s.get("mode"):
@@ -331,6 +334,17 @@ def main():
     # ---- confirm violations -------------------------------------------------
     confirmed = []
     seen = set()
+    # compile probes that failed against this tree (e.g. an API spelling the property
+    # promises does not compile): the probe source is the replay file
+    if prop.get("probe_violation"):
+        for tname, fails in B.PROBE_FAILURES.items():
+            for f in fails:
+                dest = os.path.join(artdir, f"probe_{f['name']}.cpp")
+                with open(dest, "w") as fh:
+                    fh.write("// compile probe: " + f["what"] + "\n// g++ -std=gnu++17 -fsyntax-only "
+                             "-I<nitro>/include this_file.cpp must succeed\n" + f["code"])
+                if dest not in [c[0] for c in confirmed]:
+                    confirmed.append((dest, "compile probe failed: " + f["what"] + "\n" + f["output"]))
     for j, a in violations:
         try:
             with open(a, "rb") as fh:
